@@ -343,7 +343,7 @@ TokNext == /\ Machine = "tokio"
 BufUnch == UNCHANGED <<lens, slens, mode, pk, fed, drained, chunks, wbuf, avail, wr>>
 
 IC(c, r, m) == [c |-> c, r |-> r, m |-> m]
-BufResult(t, s, ic, r, f, e) == [t |-> t, s |-> s, ic |-> ic, r |-> r, f |-> f, e |-> e]
+BufResult(t, s, ic, r, f, e) == [t |-> t, s |-> s, ic |-> ic, x |-> 0, r |-> r, f |-> f, e |-> e]
 
 BufRecv ==
     /\ pc = "idle" /\ ~dead /\ CallsLeft
